@@ -124,4 +124,30 @@ CHECKS["C20"] = {
     "note": "plugin loading/ordering (load_plugins) and resource providers in Deep.start are not yet under contract; "
             "plugins are assumed not to mutate agent objects.",
 }
+CHECKS["C09"] = {
+    "text": "push_snapshot is proved to do exactly one submission of the push task with the snapshot and nothing else "
+            "on the calling thread; submit_task refuses visibly when closed and otherwise submits exactly once and tracks "
+            "the future before attaching the completion callback; _push_task converts once and sends exactly once iff "
+            "the conversion produced a message, with the auth metadata; flush closes the handler, waits at most once per "
+            "pending task and lets no task error escape.",
+    "note": "ThreadPoolExecutor/Future are trusted (run exactly once on a worker, result() may raise); schedules "
+            "(flush racing with completion or with submission, tasks slower than the 10 s wait) are not modelled.",
+}
+CHECKS["C12"] = {
+    "text": "Sequential contracts of the configuration service proved from source: a NO_CHANGE answer writes only the "
+            "poll time; an update replaces hash and configuration together and queues exactly one listener update "
+            "carrying them; every listener receives the polled configuration followed by the code-registered "
+            "tracepoints and a failing listener does not stop the others; LongPoll.poll sends the current hash with "
+            "auth metadata, and when it fails no configuration state was touched.",
+    "note": "the schedule clause ('never an older configuration under every interleaving of the two workers') is "
+            "outside this technique: no thread semantics; RepeatedTimer loop survival is not covered.",
+}
+CHECKS["C13"] = {
+    "text": "add_custom is proved to build the trigger from the given arguments, append it and return the registration's "
+            "own fresh id; remove_custom removes exactly the registration recorded for the handle (others keep their "
+            "order), does nothing for an unknown or already used handle and never touches the service configuration; "
+            "listeners get service tracepoints followed by code-registered ones.",
+    "note": "uuid4 values are assumed distinct; Deep.register_tracepoint / TracepointRegistration are pass-through "
+            "wrappers (inlined); interleaved service updates are C12's schedule clause.",
+}
 NOT_APPLICABLE = {}
